@@ -1055,3 +1055,8 @@ impl Ord for ColUniqueness {
             .cmp(&(other.table_size.saturating_mul(self.col_size)))
     }
 }
+
+#[cfg(kani)]
+mod verif_kani_ident {
+    include!(concat!(env!("EGGLOG_VERIF_DIR"), "/kani/cr_ident.rs"));
+}
